@@ -19,7 +19,7 @@ SPEC_BUILTINS = {
     "allocated", "content_unchanged", "field_unchanged", "is_none", "not_none", "seq_len", "seq_at", "disjoint",
     "mmap_of", "mset_of", "let", "Real", "Int", "TRUE", "FALSE", "INF", "null", "mset_remove", "same_object",
     "is_open_state", "lemma", "select", "store", "trunc0", "cls_of", "idiv", "imod", "to_real", "to_int", "floor",
-    "inflt", "clock", "at_suspend", "ENTRY", "mkval", "val_at", "mmap_add", "mmap_sub", "nonempty", "msum", "sum_axiom_bound", "sum_axiom_eq", "sum_axiom_update", "sum_axiom_remove", "sum_axiom_insert", "sum_axiom_empty", "mset_single", "mmap_empty", "mmap_put", "pure_call", "unchanged_except", "xor", "distinct",
+    "inflt", "clock", "at_suspend", "ENTRY", "mkval", "val_at", "mmap_add", "mmap_sub", "nonempty", "msum", "sum_axiom_bound", "sum_axiom_eq", "sum_axiom_update", "sum_axiom_remove", "sum_axiom_insert", "sum_axiom_empty", "mset_single", "mmap_empty", "mmap_put", "pure_call", "unchanged_except", "xor", "distinct", "log_factory_restored",
 }
 
 unit = z3.Function("unit", z3.IntSort(), z3.RealSort())
@@ -357,11 +357,39 @@ def apps_all(formulas, extra):
     return apps
 
 
-def card_axioms(t, pairs=()):
+def _heap_defs(formulas):
+    """defining equations `hp_k == Store(...)` of the SSA heap names"""
+    defs = {}
+    for f in formulas:
+        if z3.is_eq(f) and z3.is_const(f.arg(0)) and f.arg(0).decl().kind() == z3.Z3_OP_UNINTERPRETED and z3.is_store(f.arg(1)):
+            defs[f.arg(0).get_id()] = f.arg(1)
+    return defs
+
+
+def _resolve_select(d, defs):
+    """Select(hp_k, r) with hp_k == Store(A, r, v)  ->  v   (syntactic; gives up otherwise)"""
+    for _ in range(8):
+        if z3.is_select(d) and d.arg(0).get_id() in defs:
+            st_ = defs[d.arg(0).get_id()]
+            if st_.arg(1).eq(d.arg(1)):
+                d = st_.arg(2)
+                continue
+        break
+    return d
+
+
+def card_axioms(t, pairs=(), defs=None):
     """AX-CARD: card >= 0, card = 0 iff empty, and for a set contained in {a, b} (a != b): card = [a in S] + [b in S]"""
     d = t.arg(0)
     s = d.sort().domain()
-    out = [t >= 0, (t == 0) == (d == z3.K(s, z3.BoolVal(False)))]
+    w = z3.FreshConst(s, "cw")
+    out = [t >= 0, (t == 0) == (d == z3.K(s, z3.BoolVal(False))), z3.Or(t == 0, z3.Select(d, w))]
+    # AX-CARD-STORE: adding / removing one element
+    ds = z3.simplify(_resolve_select(d, defs or {}))
+    if z3.is_store(ds):
+        S, x, b = ds.arg(0), ds.arg(1), ds.arg(2)
+        cS = card(S)
+        out.append(t == z3.If(b, cS + z3.If(z3.Select(S, x), 0, 1), cS - z3.If(z3.Select(S, x), 1, 0)))
     for a, b in pairs:
         if a.sort() != s:
             continue
@@ -426,7 +454,8 @@ def instantiate(formulas, rounds=2, lite=False):
                     done.add(("c", tid))
                     if pairs is None:
                         pairs = _pair_terms(formulas)
-                    new += card_axioms(t, pairs)
+                        hdefs = _heap_defs(formulas)
+                    new += card_axioms(t, pairs, hdefs)
         extra += new
         todo = new
         if not new:
